@@ -171,6 +171,22 @@ func IsNonErrorStatus(status int) bool {
 	return (status >= 200 && status < 400)
 }
 
+// headerValues returns the values of the field with the given canonical name,
+// whatever the letter case of its key in the map: a caller may have written to the
+// map directly (req.Header["x-a"] = ...) instead of using Set, and the field goes out
+// on the wire all the same.
+func headerValues(h http.Header, canonical string) []string {
+	if v, ok := h[canonical]; ok {
+		return v
+	}
+	for k, v := range h {
+		if len(k) == len(canonical) && http.CanonicalHeaderKey(k) == canonical {
+			return v
+		}
+	}
+	return nil
+}
+
 // TrimmedCSVSeq returns an iterator over the raw comma-separated string.
 // It yields each part of the string, trimmed of whitespace, and does not split inside quoted strings.
 func TrimmedCSVSeq(s string) iter.Seq[string] {
